@@ -242,3 +242,30 @@ def assigned_from(fn: Fn, name: str) -> List[ast.AST]:
         elif isinstance(n, ast.AnnAssign) and isinstance(n.target, ast.Name) and n.target.id == name and n.value:
             out.append(n.value)
     return out
+
+
+def reaching_defs(fn: Fn, use: ast.AST, var: str) -> List[ast.AST]:
+    """assignment statements binding local `var` (plain or tuple targets) that can reach `use` without being overwritten"""
+    defs = []
+    for n in fn.walk():
+        if isinstance(n, ast.Assign):
+            for t in n.targets:
+                if any(isinstance(x, ast.Name) and x.id == var and isinstance(x.ctx, ast.Store) for x in ast.walk(t)):
+                    defs.append(n)
+        elif isinstance(n, ast.AnnAssign) and isinstance(n.target, ast.Name) and n.target.id == var and n.value is not None:
+            defs.append(n)
+    un = fn.nid(use)
+    out = []
+    for d in defs:
+        dn = fn.nid(d)
+        if dn is None or un is None:
+            continue
+        others = {fn.nid(x) for x in defs if x is not d} - {dn}
+        starts = [m for m, _ in fn.cfg.succ[dn]]
+        reach = set()
+        for m in starts:
+            if m not in others:
+                reach |= fn.cfg.reachable(m, avoid=others)
+        if un in reach or un == dn:
+            out.append(d)
+    return out
